@@ -78,7 +78,8 @@ func (env *ExecEnv) Get(name string) (v Var, set bool) {
 			Name:  name,
 			Value: value,
 		}
-		set = value != ""
+		// only $! can be unset
+		set = name != "!" || value != ""
 		return
 	}
 Default:
